@@ -30,7 +30,7 @@ TOLERANCES = {"analytical propagators, ephemeris interpolation": "bit-exact", "e
 
 
 def gen_plan(rng, tier, i):
-    return gen_iter_plan(rng, mode="C08")
+    return gen_iter_plan(rng, mode="C08", tier=tier)
 
 
 def run_plan(plan, ctx):
